@@ -1,7 +1,809 @@
 /-
-  Property C15 — theorems about QEModel.C15 (stub; to be filled in).
+  Property C15 — approximate solvers deliver the accuracy they report:
+  theorems about QEModel.C15 (the definitions the driver `qedriver_c15` executes).
+
+  Reading guide (properties.jsonl, C15):
+    * "compute_fixed_point returns a point v with max|T(v)-v| <= error_tol unless it signals
+      non-convergence … iteration":   `fp_iterate_contract`, `fp_iterate_supnorm`,
+      `fp_iterate_contraction` (+ `_metric`), `fp_iterate_residual_nonexpansive` (+ the witness
+      that an expansive map escapes: the code tests the step, not the residual)
+    * "… and the imitation-game method":   `ig_flag_sound`, `ig_accuracy`, `ig_buffers_irrelevant`,
+      `ig_not_converged_uses_max_iter`, `ig_invariant`, `dotRows_box`, `ig_box_invariant_partial`,
+      `ig_tableau_payoffs_ge_one`
+    * "for a contraction it lies within error_tol/(1-modulus) of the true fixed point":
+      `fp_iterate_contraction`, `fp_iterate_contraction_metric`, `fp_iterate_affine_contraction`
+      (all hypotheses discharged for the maps of the correspondence), `ig_contraction_distance`
+    * "whenever mclennan_tourky reports convergence, the returned profile … is an epsilon-Nash
+      equilibrium":   `isNashTol_iff`, `mt_converged_eps_nash`;  "consists of probability vectors":
+      `dotRows_blocks_prob`, `unflatten_prob`, `brSelection_block_prob`, `mt_profile_prob_lh_partial` (rho from
+      Lemke–Howson as a certificate; `mt_profile_prob_partial` is its general form).
 -/
+import Mathlib.Topology.MetricSpace.Contracting
 import QEModel.C15
+import QEProofs.Lemmas.C15Loops
+import QEProofs.Lemmas.C15Nash
+import QEProofs.Lemmas.C15Convex
+import QEProofs.Lemmas.C15Affine
+import QEProofs.Lemmas.C15Blocks
 namespace QE.C15
+
+/-! ## compute_fixed_point, method = 'iteration' -/
+
+section iteration
+variable {V K : Type} [LinearOrder K]
+
+/-- **Contract of the iteration method**, for every map `T`, every error functional and every
+    `max_iter ≥ 1`: the loop makes `k+1 ≤ max_iter` evaluations and returns the *new* iterate
+    `T (T^k v)` together with the last step `err (T (T^k v)) (T^k v)`; every earlier step was
+    `> tol`; the warning is issued iff the last step is `> tol`; a run that stopped before
+    `max_iter` is never flagged. -/
+theorem fp_iterate_contract (T : V → V) (err : V → V → K) (tol : K) (maxIter : Nat)
+    (hm : 1 ≤ maxIter) (v : V) :
+    ∃ k, k < maxIter ∧
+      (fpIterate T err tol maxIter v).iterate = k + 1 ∧
+      (fpIterate T err tol maxIter v).v = T (T^[k] v) ∧
+      (fpIterate T err tol maxIter v).error = err (T (T^[k] v)) (T^[k] v) ∧
+      (iterWarn tol (fpIterate T err tol maxIter v) = false ↔
+        err (T (T^[k] v)) (T^[k] v) ≤ tol) ∧
+      ((fpIterate T err tol maxIter v).iterate < maxIter →
+        iterWarn tol (fpIterate T err tol maxIter v) = false) ∧
+      (∀ j, j < k → tol < err (T (T^[j] v)) (T^[j] v)) := by
+  obtain ⟨k, hk, h1, h2, h3, h4, h5⟩ := fpIterLoop_spec T err tol (maxIter - 1) v 0
+  have hwarn : iterWarn tol (fpIterate T err tol maxIter v) = false ↔
+      err (T (T^[k] v)) (T^[k] v) ≤ tol := by
+    unfold iterWarn fpIterate
+    rw [h3, Function.iterate_succ_apply']
+    simp
+  refine ⟨k, by omega, ?_, ?_, ?_, hwarn, ?_, ?_⟩
+  · unfold fpIterate; rw [h1]; omega
+  · unfold fpIterate; rw [h2, Function.iterate_succ_apply']
+  · unfold fpIterate; rw [h3, Function.iterate_succ_apply']
+  · intro hlt
+    rw [hwarn]
+    have : k < maxIter - 1 := by
+      unfold fpIterate at hlt; rw [h1] at hlt; omega
+    have := h4 this
+    rwa [Function.iterate_succ_apply'] at this
+  · intro j hj
+    have := h5 j hj
+    rw [Function.iterate_succ_apply'] at this
+    exact not_le.mp this
+
+/-- non-vacuity / sanity: on `T x = x/2 + 1` from `0` with `tol = 1/4`, the loop stops after 3
+    evaluations at `7/4` with error `1/4` and no warning; with `max_iter = 2` it is flagged -/
+example : let o := fpIterate (fun x : Rat => x / 2 + 1) (fun a b => absv (a - b)) (1/4) 10 0
+    (o.v, o.error, o.iterate, iterWarn (1/4 : Rat) o) = (7/4, 1/4, 3, false) := by decide +kernel
+example : let o := fpIterate (fun x : Rat => x / 2 + 1) (fun a b => absv (a - b)) (1/4) 2 0
+    (o.v, o.error, o.iterate, iterWarn (1/4 : Rat) o) = (3/2, 1/2, 2, true) := by decide +kernel
+
+end iteration
+
+section contraction
+variable {V K : Type} [Field K] [LinearOrder K] [IsStrictOrderedRing K]
+
+/-- **Accuracy for a contraction** (all that is used of `err`: symmetry and the triangle
+    inequality on a domain `D` closed under `T`; `κ < 1` a Lipschitz modulus of `T` on `D`).
+    If no warning is issued, the returned point `v'` satisfies, for every fixed point `x*` in `D`,
+    `err v' x* ≤ κ/(1-κ)·tol` (hence `≤ tol/(1-κ)`), and its own residual is `err (T v') v' ≤ κ·tol`
+    (hence `≤ tol`). -/
+theorem fp_iterate_contraction (T : V → V) (err : V → V → K) (D : V → Prop)
+    (hT : ∀ x, D x → D (T x))
+    (symm : ∀ x y, D x → D y → err x y = err y x)
+    (tri : ∀ x y z, D x → D y → D z → err x z ≤ err x y + err y z)
+    (κ : K) (h0 : 0 ≤ κ) (h1 : κ < 1)
+    (lip : ∀ x y, D x → D y → err (T x) (T y) ≤ κ * err x y)
+    (xs : V) (hxs : D xs) (hfix : T xs = xs)
+    (tol : K) (maxIter : Nat) (hm : 1 ≤ maxIter) (v : V) (hv : D v)
+    (hw : iterWarn tol (fpIterate T err tol maxIter v) = false) :
+    err (fpIterate T err tol maxIter v).v xs ≤ κ / (1 - κ) * tol ∧
+    err (fpIterate T err tol maxIter v).v xs ≤ tol / (1 - κ) ∧
+    err (T (fpIterate T err tol maxIter v).v) (fpIterate T err tol maxIter v).v ≤ κ * tol ∧
+    (0 ≤ tol → err (T (fpIterate T err tol maxIter v).v) (fpIterate T err tol maxIter v).v ≤ tol) := by
+  have hDall : ∀ k, D (T^[k] v) := by
+    intro k
+    induction k with
+    | zero => exact hv
+    | succ k ih => rw [Function.iterate_succ_apply']; exact hT _ ih
+  obtain ⟨k, _, _, hv', _, hwarn, _, _⟩ := fp_iterate_contract T err tol maxIter hm v
+  have hstep := hwarn.mp hw
+  have hDw : D (T^[k] v) := hDall k
+  set w := T^[k] v with hw_def
+  rw [hv']
+  have hDTw := hT w hDw
+  have hpos : 0 < 1 - κ := by linarith
+  -- d(Tw, x*) ≤ κ d(w, x*) ≤ κ (d(w, Tw) + d(Tw, x*))
+  have e1 : err (T w) xs ≤ κ * err w xs := by
+    have := lip w xs hDw hxs; rwa [hfix] at this
+  have e2 : err w xs ≤ err w (T w) + err (T w) xs := tri w (T w) xs hDw hDTw hxs
+  have e3 : err w (T w) = err (T w) w := symm w (T w) hDw hDTw
+  have e4 : (1 - κ) * err (T w) xs ≤ κ * tol := by
+    have : κ * err w xs ≤ κ * (err (T w) w + err (T w) xs) := by
+      apply mul_le_mul_of_nonneg_left _ h0; linarith
+    have : κ * (err (T w) w) ≤ κ * tol := mul_le_mul_of_nonneg_left hstep h0
+    nlinarith
+  have r1 : err (T w) xs ≤ κ / (1 - κ) * tol := by
+    rw [div_mul_eq_mul_div, le_div_iff₀ hpos]; linarith
+  have r3 : err (T (T w)) (T w) ≤ κ * tol :=
+    le_trans (lip (T w) w hDTw hDw) (mul_le_mul_of_nonneg_left hstep h0)
+  refine ⟨r1, ?_, r3, ?_⟩
+  · -- (1-κ) d ≤ κ tol ≤ tol needs tol ≥ 0, which follows from 0 ≤ d(Tw,Tw) … ; use e4 directly
+    rw [le_div_iff₀ hpos]
+    by_cases ht : 0 ≤ tol
+    · nlinarith
+    · -- tol < 0: then err (T w) w ≤ tol < 0, so err w xs ≤ … still fine via e4 and e1,e2
+      have hneg : tol < 0 := not_le.mp ht
+      -- 0 ≤ 2 * err (T w) w by triangle+symmetry: err (Tw)(Tw) ≤ err (Tw) w + err w (Tw)
+      have t0 : err (T w) (T w) ≤ err (T w) w + err w (T w) := tri _ _ _ hDTw hDw hDTw
+      have t1 : err (T w) (T w) ≤ err (T w) (T w) + err (T w) (T w) := tri _ _ _ hDTw hDTw hDTw
+      nlinarith
+  · intro ht
+    nlinarith
+
+omit [Field K] [IsStrictOrderedRing K] in
+/-- **Residual for a non-expansive map** (`κ = 1` allowed; no fixed point needed): no warning ⇒
+    the returned point `v'` has `err (T v') v' ≤ tol`. This is the first clause of the property
+    ("returns a point v with max|T(v)-v| ≤ error_tol unless it signals non-convergence") for the
+    iteration method; it does *not* hold for expansive maps, see the witness below: the code tests
+    the step `‖v' − v‖`, not the residual of the point it returns. -/
+theorem fp_iterate_residual_nonexpansive (T : V → V) (err : V → V → K) (D : V → Prop)
+    (hT : ∀ x, D x → D (T x))
+    (lip : ∀ x y, D x → D y → err (T x) (T y) ≤ err x y)
+    (tol : K) (maxIter : Nat) (hm : 1 ≤ maxIter) (v : V) (hv : D v)
+    (hw : iterWarn tol (fpIterate T err tol maxIter v) = false) :
+    err (T (fpIterate T err tol maxIter v).v) (fpIterate T err tol maxIter v).v ≤ tol := by
+  have hDall : ∀ k, D (T^[k] v) := by
+    intro k
+    induction k with
+    | zero => exact hv
+    | succ k ih => rw [Function.iterate_succ_apply']; exact hT _ ih
+  obtain ⟨k, _, _, hv', _, hwarn, _, _⟩ := fp_iterate_contract T err tol maxIter hm v
+  rw [hv']
+  exact le_trans (lip _ _ (hT _ (hDall k)) (hDall k)) (hwarn.mp hw)
+
+/-- witness that the hypothesis cannot be dropped: `T x = 3x − 1` (fixed point `1/2`), start `5/8`,
+    `tol = 1/4`: the first step is `1/4 ≤ tol`, no warning, the point returned is `7/8` whose
+    residual `|T(7/8) − 7/8| = 3/4 > tol`. (Kept as a test of the model, not as a finding: the
+    docstring promises accuracy for contractions "or similar".) -/
+example : let T := fun x : Rat => 3 * x - 1
+    let o := fpIterate T (fun a b => absv (a - b)) (1/4 : Rat) 10 (5/8)
+    (iterWarn (1/4 : Rat) o, o.v, absv (T o.v - o.v)) = (false, 7/8, 3/4) := by decide +kernel
+
+/-- The same in Mathlib's terms: `V` a metric space, `err = dist`, `T` a `ContractingWith κ`. -/
+theorem fp_iterate_contraction_metric {V : Type} [MetricSpace V] {κ : NNReal} {T : V → V}
+    (hT : ContractingWith κ T) (xs : V) (hfix : Function.IsFixedPt T xs)
+    (tol : ℝ) (maxIter : Nat) (hm : 1 ≤ maxIter) (v : V)
+    (hw : iterWarn tol (fpIterate T dist tol maxIter v) = false) :
+    dist (fpIterate T dist tol maxIter v).v xs ≤ κ / (1 - κ) * tol ∧
+    dist (fpIterate T dist tol maxIter v).v xs ≤ tol / (1 - κ) ∧
+    dist (T (fpIterate T dist tol maxIter v).v) (fpIterate T dist tol maxIter v).v ≤ κ * tol ∧
+    dist (T (fpIterate T dist tol maxIter v).v) (fpIterate T dist tol maxIter v).v ≤ tol := by
+  have h := fp_iterate_contraction T dist (fun _ => True) (fun _ _ => trivial)
+    (fun x y _ _ => dist_comm x y) (fun x y z _ _ _ => dist_triangle x y z) (κ : ℝ) κ.2 hT.1
+    (fun x y _ _ => hT.dist_le_mul x y) xs trivial hfix tol maxIter hm v trivial hw
+  obtain ⟨k, _, _, _, he, hwarn, _, _⟩ := fp_iterate_contract T dist tol maxIter hm v
+  have ht : 0 ≤ tol := le_trans dist_nonneg (hwarn.mp hw)
+  exact ⟨h.1, h.2.1, h.2.2.1, h.2.2.2 ht⟩
+
+/-- non-vacuity of the hypotheses of `fp_iterate_contraction`: `T x = x/2 + 1` on `ℚ` with
+    `err = |·−·|`, `κ = 1/2`, fixed point `2`, `tol = 1/4`: no warning, the point returned is
+    `7/4`, at distance `1/4 = κ/(1-κ)·tol` (the bound is attained) -/
+example : let T := fun x : Rat => x / 2 + 1
+    iterWarn (1/4 : Rat) (fpIterate T (fun a b => absv (a - b)) (1/4) 10 0) = false ∧
+    absv ((fpIterate T (fun a b => absv (a - b)) (1/4 : Rat) 10 0).v - 2) = (1/2) / (1 - 1/2) * (1/4) := by
+  decide +kernel
+
+end contraction
+
+section supnorm
+variable {K : Type} [Field K] [LinearOrder K] [IsStrictOrderedRing K]
+
+/-- With the error functional the code uses on arrays (`np.max(np.abs(new_v - v))`, the model's
+    `maxAbsDiff`): no warning ⇒ every coordinate of the returned point differs from the previous
+    iterate by at most `tol` (and `tol ≥ 0`). -/
+theorem fp_iterate_supnorm (T : List K → List K) (tol : K) (maxIter : Nat) (hm : 1 ≤ maxIter)
+    (v : List K) (hw : iterWarn tol (fpIterate T maxAbsDiff tol maxIter v) = false) :
+    ∃ w : List K, (fpIterate T maxAbsDiff tol maxIter v).v = T w ∧ 0 ≤ tol ∧
+      ∀ i, i < (T w).length → i < w.length → |(T w).getD i 0 - w.getD i 0| ≤ tol := by
+  obtain ⟨k, _, _, hv, _, hwarn, _, _⟩ := fp_iterate_contract T maxAbsDiff tol maxIter hm v
+  have h := hwarn.mp hw
+  have ht : 0 ≤ tol := le_trans (maxAbsDiff_nonneg _ _) h
+  exact ⟨T^[k] v, hv, ht, (maxAbsDiff_le_iff _ _ _ ht).mp h⟩
+
+/-- **End to end on the maps the correspondence runs** (`affClip A b box`: `x ↦ clip(A x + b)`,
+    vectors of length `n`, the code's error functional `maxAbsDiff`): if every absolute row sum of
+    `A` is `≤ κ < 1`, then whenever the iteration method issues no warning, the point returned is
+    within `tol/(1-κ)` of every fixed point, coordinate by coordinate, and its own residual is
+    `≤ κ·tol` — the instance of `fp_iterate_contraction` whose hypotheses (metric axioms for
+    `maxAbsDiff`, Lipschitz modulus of `affClip`) are all proved. -/
+theorem fp_iterate_affine_contraction (A : List (List K)) (b : List K) (box : Option (K × K)) (n : Nat)
+    (hA : A.length = n) (hb : b.length = n)
+    (κ : K) (h0 : 0 ≤ κ) (h1 : κ < 1) (hrows : ∀ row ∈ A, fsum (row.map fun a => |a|) ≤ κ)
+    (xs : List K) (hxs : xs.length = n) (hfix : affClip A b box xs = xs)
+    (tol : K) (maxIter : Nat) (hm : 1 ≤ maxIter) (v : List K) (hv : v.length = n)
+    (hw : iterWarn tol (fpIterate (affClip A b box) maxAbsDiff tol maxIter v) = false) :
+    (∀ i, i < n → |(fpIterate (affClip A b box) maxAbsDiff tol maxIter v).v.getD i 0 - xs.getD i 0|
+        ≤ tol / (1 - κ)) ∧
+    (∀ i, i < n → |(affClip A b box (fpIterate (affClip A b box) maxAbsDiff tol maxIter v).v).getD i 0
+        - (fpIterate (affClip A b box) maxAbsDiff tol maxIter v).v.getD i 0| ≤ κ * tol) := by
+  have hlenT : ∀ x : List K, (affClip A b box x).length = n := by
+    intro x; rw [affClip_length, hA, hb]; simp
+  have h := fp_iterate_contraction (affClip A b box) maxAbsDiff (fun x => x.length = n)
+    (fun x _ => hlenT x)
+    (fun x y _ _ => maxAbsDiff_symm x y)
+    (fun x y z hx hy hz => maxAbsDiff_triangle x y z (by rw [hx, hy]) (by rw [hy, hz]))
+    κ h0 h1 (fun x y hx hy => affClip_lip A b box κ h0 hrows x y (by rw [hx, hy]))
+    xs hxs hfix tol maxIter hm v hv hw
+  obtain ⟨k, _, _, hv', _, _, _, _⟩ := fp_iterate_contract (affClip A b box) maxAbsDiff tol maxIter hm v
+  have hlen : (fpIterate (affClip A b box) maxAbsDiff tol maxIter v).v.length = n := by
+    rw [hv']; exact hlenT _
+  constructor
+  · intro i hi
+    exact le_trans (maxAbsDiff_coord _ _ i (by omega) (by omega)) h.2.1
+  · intro i hi
+    exact le_trans (maxAbsDiff_coord _ _ i (by rw [hlenT]; exact hi) (by omega)) h.2.2.1
+
+/-- non-vacuity: `A = [[0, 1/2], [1/4, 0]]`, `b = (1, 0)`, `κ = 1/2`, fixed point `(8/7, 2/7)` -/
+example : (∀ row ∈ ([[0, 1/2], [1/4, 0]] : List (List Rat)), fsum (row.map fun a => |a|) ≤ 1/2) ∧
+    affClip ([[0, 1/2], [1/4, 0]] : List (List Rat)) [1, 0] none [8/7, 2/7] = [8/7, 2/7] ∧
+    iterWarn (1/100 : Rat) (fpIterate (affClip [[0, 1/2], [1/4, 0]] [1, 0] none) maxAbsDiff (1/100) 50 [0, 0]) = false := by
+  refine ⟨?_, by decide +kernel, by decide +kernel⟩
+  intro row hrow
+  simp only [List.mem_cons, List.not_mem_nil, or_false] at hrow
+  rcases hrow with rfl | rfl <;> norm_num [fsum]
+
+end supnorm
+
+/-! ## compute_fixed_point, method = 'imitation_game' -/
+
+section imitation
+variable {V : Type}
+
+/-- **Flag soundness**, for every `T`, every predicate and *every* rule for the next point
+    (Lemke–Howson may return anything): the flag returned is `is_approx_fp` evaluated at the
+    point returned — in particular `converged ⇒ is_approx_fp(x_returned)`. -/
+theorem ig_flag_sound (T : V → V) (isFp : V → Bool) (next : List V → List V → V) (maxIter : Nat)
+    (v : V) :
+    (fixedPointIG T isFp next maxIter v).converged = isFp (fixedPointIG T isFp next maxIter v).x := by
+  unfold fixedPointIG
+  split
+  · rfl
+  · exact igLoop_flag T isFp next maxIter _ _ _ _ _
+
+/-- a run that is not flagged as converged made exactly `max_iter` iterations; every run makes
+    between 1 and `max_iter` -/
+theorem ig_not_converged_uses_max_iter (T : V → V) (isFp : V → Bool) (next : List V → List V → V)
+    (maxIter : Nat) (hm : 1 ≤ maxIter) (v : V) :
+    1 ≤ (fixedPointIG T isFp next maxIter v).iterate ∧
+    (fixedPointIG T isFp next maxIter v).iterate ≤ maxIter ∧
+    ((fixedPointIG T isFp next maxIter v).converged = false →
+      (fixedPointIG T isFp next maxIter v).iterate = maxIter) := by
+  unfold fixedPointIG
+  split
+  · rename_i hc
+    refine ⟨Nat.le_refl _, hm, fun hconv => ?_⟩
+    rcases hc with hc | hc
+    · simp only at hconv; rw [hc] at hconv; exact absurd hconv (by decide)
+    · show 1 = maxIter; omega
+  · rename_i hc
+    have hlt : 1 < maxIter := by
+      by_contra hcon; exact hc (Or.inr (by omega))
+    obtain ⟨a, b, c⟩ := igLoop_iterate T isFp next maxIter (maxIter - 1) [v] [T v] (T v) 1 (by omega) hlt
+    exact ⟨by omega, a, c⟩
+
+/-- **The buffers do not matter**: with the X/Y arrays of the code (initial capacity
+    `min(max_iter, buff0)`, doubled on `IndexError`, uninitialised rows filled with an arbitrary
+    `junk`), the routine computes exactly what it computes on unbounded lists: no stored point is
+    ever lost or read from an uninitialised row. -/
+theorem ig_buffers_irrelevant (junk : V) (buff0 : Nat) (hb : 1 ≤ buff0) (T : V → V) (isFp : V → Bool)
+    (next : List V → List V → V) (maxIter : Nat) (v : V) :
+    fixedPointIGBuf junk buff0 T isFp next maxIter v = fixedPointIG T isFp next maxIter v :=
+  fixedPointIGBuf_eq junk buff0 hb T isFp next maxIter v
+
+/-- **Invariant along every history**: if a set `P` of points contains the start, is mapped
+    into itself by whatever `next` builds from stored points of `P` and their images, then the
+    point returned lies in `P`. (`next` always sees `Y = X.map T`: the images stored are the
+    images of the points stored.) -/
+theorem ig_invariant (T : V → V) (isFp : V → Bool) (next : List V → List V → V) (maxIter : Nat)
+    (P : V → Prop) (hT : ∀ x, P x → P (T x))
+    (hnext : ∀ X : List V, X ≠ [] → (∀ x ∈ X, P x) → P (next X (X.map T)))
+    (v : V) (hv : P v) : P (fixedPointIG T isFp next maxIter v).x := by
+  unfold fixedPointIG
+  split
+  · exact hv
+  · have := igLoop_history T isFp next maxIter P hnext (maxIter - 1) [v] (T v) 1 rfl
+      (by intro z hz; rw [List.mem_singleton.mp hz]; exact hv) (hT v hv)
+    simpa using this
+
+/-- **Distance to the fixed point of a contraction, imitation-game method**: with
+    `is_approx_fp x = (err (T x) x ≤ tol)`, `T` a `κ`-contraction on a domain `D` that the rule for
+    the next point does not leave (convex combinations of stored images stay in a convex `D`),
+    a converged run returns a point within `tol/(1-κ)` of every fixed point in `D`. -/
+theorem ig_contraction_distance {K : Type} [Field K] [LinearOrder K] [IsStrictOrderedRing K]
+    (T : V → V) (err : V → V → K) (D : V → Prop)
+    (hT : ∀ x, D x → D (T x))
+    (symm : ∀ x y, D x → D y → err x y = err y x)
+    (tri : ∀ x y z, D x → D y → D z → err x z ≤ err x y + err y z)
+    (κ : K) (h1 : κ < 1)
+    (lip : ∀ x y, D x → D y → err (T x) (T y) ≤ κ * err x y)
+    (xs : V) (hxs : D xs) (hfix : T xs = xs) (tol : K)
+    (next : List V → List V → V)
+    (hnext : ∀ X : List V, X ≠ [] → (∀ x ∈ X, D x) → D (next X (X.map T)))
+    (maxIter : Nat) (v : V) (hv : D v)
+    (hc : (fixedPointIG T (fun x => decide (err (T x) x ≤ tol)) next maxIter v).converged = true) :
+    err (fixedPointIG T (fun x => decide (err (T x) x ≤ tol)) next maxIter v).x xs ≤ tol / (1 - κ) := by
+  have hD := ig_invariant T (fun x => decide (err (T x) x ≤ tol)) next maxIter D hT hnext v hv
+  rw [ig_flag_sound] at hc
+  generalize (fixedPointIG T (fun x => decide (err (T x) x ≤ tol)) next maxIter v).x = x at hc hD
+  have hres : err (T x) x ≤ tol := of_decide_eq_true hc
+  have hpos : 0 < 1 - κ := by linarith
+  have e1 : err x xs ≤ err x (T x) + err (T x) xs := tri x (T x) xs hD (hT x hD) hxs
+  have e2 : err x (T x) = err (T x) x := symm x (T x) hD (hT x hD)
+  have e3 : err (T x) xs ≤ κ * err x xs := by
+    have := lip x xs hD hxs; rwa [hfix] at this
+  rw [le_div_iff₀ hpos]
+  nlinarith
+
+end imitation
+
+section imitation_accuracy
+variable {K : Type} [Field K] [LinearOrder K] [IsStrictOrderedRing K]
+
+/-- **Accuracy of the imitation-game method** as `compute_fixed_point` instantiates it
+    (`is_approx_fp v = (max|T v − v| ≤ error_tol)`): if the run is not flagged (converged), the
+    point returned satisfies `|T(x)_i − x_i| ≤ tol` in every coordinate — whatever Lemke–Howson
+    returned on the way, with the code's buffers. -/
+theorem ig_accuracy (junk : List K) (buff0 : Nat) (hb : 1 ≤ buff0) (T : List K → List K) (tol : K)
+    (next : List (List K) → List (List K) → List K) (maxIter : Nat) (v : List K)
+    (hc : (fixedPointIGBuf junk buff0 T (isApproxFp T tol) next maxIter v).converged = true) :
+    0 ≤ tol ∧
+    ∀ i, i < (T (fixedPointIGBuf junk buff0 T (isApproxFp T tol) next maxIter v).x).length →
+      i < (fixedPointIGBuf junk buff0 T (isApproxFp T tol) next maxIter v).x.length →
+      |(T (fixedPointIGBuf junk buff0 T (isApproxFp T tol) next maxIter v).x).getD i 0
+        - (fixedPointIGBuf junk buff0 T (isApproxFp T tol) next maxIter v).x.getD i 0| ≤ tol := by
+  rw [ig_buffers_irrelevant junk buff0 hb] at hc ⊢
+  rw [ig_flag_sound] at hc
+  have h : maxAbsDiff (T (fixedPointIG T (isApproxFp T tol) next maxIter v).x)
+      (fixedPointIG T (isApproxFp T tol) next maxIter v).x ≤ tol := by
+    generalize (fixedPointIG T (isApproxFp T tol) next maxIter v).x = x at hc
+    unfold isApproxFp at hc
+    exact of_decide_eq_true hc
+  have ht : 0 ≤ tol := le_trans (maxAbsDiff_nonneg _ _) h
+  exact ⟨ht, (maxAbsDiff_le_iff _ _ _ ht).mp h⟩
+
+/-- non-vacuity: the routine does converge on a concrete contraction of `ℚ²`
+    (`T(x,y) = (y/2 + 1, x/4)`, start `(0,0)`, `tol = 1/100`) with the real Lemke–Howson rule -/
+example : (fixedPointIGBuf [] 2 (affClip [[0, 1/2], [1/4, 0]] [1, 0] none)
+    (isApproxFp (affClip [[0, 1/2], [1/4, 0]] [1, 0] none) (1/100 : Rat))
+    (igNext 1000000 tolPivQ tolDiffQ) 20 [0, 0]).converged = true := by decide +kernel
+
+/-- **Imitation-game tableaux are admissible for Lemke–Howson** (`_initialize_tableaux_ig`): for
+    every history, every entry of the imitator's payoff block `−‖X_i − Y_j‖² − min_j + 1` is `≥ 1`
+    (strictly positive payoffs), whatever the stored points are. -/
+theorem ig_tableau_payoffs_ge_one (m : Nat) (X Y : List (List K)) (i j : Nat) (hi : i < m) (hj : j < m) :
+    1 ≤ (igT1 m X Y).get i (m + j) := igT1_payoff_ge_one m X Y i j hi hj
+
+example : (igT1 2 [[0, 0], [1, 1]] [[1, 1], [0, 3]]).toRows
+    = [[1, 0, 1, 1, 1], [0, 1, 3, 5, 1]] := by decide +kernel
+
+end imitation_accuracy
+
+/-! ## mclennan_tourky -/
+
+section nash
+variable {K : Type} [Field K] [LinearOrder K] [IsStrictOrderedRing K]
+
+/-- the payoff vectors `players[i].payoff_vector(profile[i+1:] + profile[:i])` of a profile -/
+def pvOf (nums : List Nat) (pays : List (List K)) (prof : List (List K)) (i : Nat) : List K :=
+  payoffVector nums (pays.getD i []) i prof
+
+/-- **ε-Nash, declaratively.** `prof` is an `ε`-Nash equilibrium when no player `i` has a pure
+    action whose payoff against the others' mixed actions exceeds the payoff `x_i · pv_i` of his
+    own mixed action by more than `ε`. -/
+def IsEpsNashProfile (nums : List Nat) (pays : List (List K)) (eps : K) (prof : List (List K)) : Prop :=
+  ∀ i, i < nums.length → ∀ p ∈ pvOf nums pays prof i, p ≤ dot (prof.getD i []) (pvOf nums pays prof i) + eps
+
+/-- `NormalFormGame.is_nash(profile, tol)` (the model's `isNashTol`) decides exactly the
+    declarative notion; the guard is that every player's payoff vector is non-empty (he has at
+    least one action) — for an empty vector `max()` raises in the code. -/
+theorem isNashTol_iff (nums : List Nat) (pays : List (List K)) (tol : K) (prof : List (List K))
+    (hne : ∀ i, i < nums.length → pvOf nums pays prof i ≠ []) :
+    isNashTol nums pays tol prof = true ↔ IsEpsNashProfile nums pays tol prof := by
+  unfold isNashTol IsEpsNashProfile
+  rw [List.all_eq_true]
+  constructor
+  · intro h i hi p hp
+    have := h i (List.mem_range.mpr hi)
+    unfold isBestResponse at this
+    have h2 := of_decide_eq_true this
+    have h3 : vecMax (pvOf nums pays prof i) ≤ dot (prof.getD i []) (pvOf nums pays prof i) + tol := by
+      unfold pvOf; linarith
+    exact (vecMax_le_iff _ (hne i hi) _).mp h3 p hp
+  · intro h i hi
+    have hi' := List.mem_range.mp hi
+    unfold isBestResponse
+    apply decide_eq_true
+    have h3 := (vecMax_le_iff _ (hne i hi') _).mpr (h i hi')
+    unfold pvOf at h3; linarith
+
+/-- **mclennan_tourky: converged ⇒ ε-Nash**, for every game, start, `ε`, `max_iter`, and whatever
+    the imitation-game step (`next`: tableaux, Lemke–Howson, convex combination) produced along the
+    way: if the routine reports convergence, the un-flattened profile it returns is an `ε`-Nash
+    equilibrium in the declarative sense. -/
+theorem mt_converged_eps_nash (nums : List Nat) (pays : List (List K)) (eps tolBR : K)
+    (next : List (List K) → List (List K) → List K) (maxIter : Nat) (x0 : List K)
+    (hne : ∀ i, i < nums.length → pvOf nums pays
+      (unflatten nums (mclennanTourky nums pays eps tolBR next maxIter x0).x) i ≠ [])
+    (hc : (mclennanTourky nums pays eps tolBR next maxIter x0).converged = true) :
+    IsEpsNashProfile nums pays eps
+      (unflatten nums (mclennanTourky nums pays eps tolBR next maxIter x0).x) := by
+  unfold mclennanTourky at hc hne ⊢
+  rw [ig_flag_sound] at hc
+  unfold isEpsNash at hc
+  exact (isNashTol_iff nums pays eps _ hne).mp hc
+
+/-- and conversely the flag is exact: not converged ⇒ the profile returned is *not* ε-Nash (the
+    routine never gives up on a point that already passes the test) and `max_iter` iterations
+    were used -/
+theorem mt_not_converged (nums : List Nat) (pays : List (List K)) (eps tolBR : K)
+    (next : List (List K) → List (List K) → List K) (maxIter : Nat) (hm : 1 ≤ maxIter) (x0 : List K)
+    (hne : ∀ i, i < nums.length → pvOf nums pays
+      (unflatten nums (mclennanTourky nums pays eps tolBR next maxIter x0).x) i ≠ [])
+    (hc : (mclennanTourky nums pays eps tolBR next maxIter x0).converged = false) :
+    ¬ IsEpsNashProfile nums pays eps
+      (unflatten nums (mclennanTourky nums pays eps tolBR next maxIter x0).x) ∧
+    (mclennanTourky nums pays eps tolBR next maxIter x0).iterate = maxIter := by
+  unfold mclennanTourky at hc hne ⊢
+  refine ⟨?_, (ig_not_converged_uses_max_iter _ _ _ _ hm _).2.2 hc⟩
+  rw [ig_flag_sound] at hc
+  intro h
+  have h2 := (isNashTol_iff nums pays eps _ hne).mpr h
+  have h3 : isEpsNash nums pays eps
+      (fixedPointIG (brSelection nums pays tolBR) (isEpsNash nums pays eps) next maxIter x0).x = true := h2
+  rw [h3] at hc
+  exact absurd hc (by decide)
+
+/-- **`best_response(…, tie_breaking='smallest')`** (the map whose fixed points are sought):
+    for a non-empty payoff vector and `tol ≥ 0` the action selected exists, is a `tol`-best
+    response, and no action with a smaller index is one. -/
+theorem bestResponse_spec (tol : K) (ht : 0 ≤ tol) (pv : List K) (hne : pv ≠ []) :
+    ∃ h : bestResponse tol pv < pv.length,
+      vecMax pv - tol ≤ pv[bestResponse tol pv] ∧
+      ∀ j (hj : j < bestResponse tol pv), pv[j]'(Nat.lt_trans hj h) < vecMax pv - tol := by
+  have hex : ∃ p ∈ pv, decide (vecMax pv - tol ≤ p) = true :=
+    ⟨vecMax pv, vecMax_mem pv hne, decide_eq_true (by linarith)⟩
+  have hlt : bestResponse tol pv < pv.length := List.findIdx_lt_length_of_exists hex
+  refine ⟨hlt, ?_, ?_⟩
+  · have := List.findIdx_getElem (w := hlt)
+    exact of_decide_eq_true this
+  · intro j hj
+    have := List.not_of_lt_findIdx hj
+    exact not_le.mp (of_decide_eq_false this)
+
+omit [LinearOrder K] [IsStrictOrderedRing K] in
+/-- `pure2mixed(n, a)` has `n` entries, all `0` except a `1` at `a` -/
+theorem pure2mixed_spec (n a : Nat) :
+    (pure2mixed n a : List K).length = n ∧
+    ∀ k, k < n → (pure2mixed n a : List K).getD k 0 = if k = a then 1 else 0 := by
+  unfold pure2mixed
+  refine ⟨by simp, fun k hk => ?_⟩
+  rw [List.getD_eq_getElem?_getD, List.getElem?_map, List.getElem?_eq_getElem (by simpa using hk)]
+  simp
+
+example : bestResponse (1/10 : Rat) [1, 3, 29/10, 3] = 1 ∧ bestResponse (1/5 : Rat) [14/5, 3, 3] = 0 := by
+  decide +kernel
+
+omit [LinearOrder K] [IsStrictOrderedRing K] in
+/-- for two players the payoff vector is the matrix–vector product `A y` -/
+theorem payoffVector_two (n0 n1 : Nat) (pay : List K) (x0 x1 : List K) :
+    payoffVector [n0, n1] pay 0 [x0, x1] = reduceLast pay n1 x1 ∧
+    payoffVector [n0, n1] pay 1 [x0, x1] = reduceLast pay n0 x0 := by
+  constructor <;> simp [payoffVector, rot]
+
+/-- non-vacuity: matching pennies, the uniform profile is a 0-Nash equilibrium, a pure profile is
+    not even a 1-Nash equilibrium; mclennan_tourky started at the uniform profile converges at once,
+    started at a pure profile with `ε = 1/100` it converges (real Lemke–Howson rule) -/
+example : isNashTol [2, 2] [[1, -1, -1, 1], [-1, 1, 1, -1]] (0 : Rat) [[1/2, 1/2], [1/2, 1/2]] = true ∧
+    isNashTol [2, 2] [[1, -1, -1, 1], [-1, 1, 1, -1]] (1 : Rat) [[1, 0], [1, 0]] = false := by
+  decide +kernel
+example : (mclennanTourky [2, 2] [[1, -1, -1, 1], [-1, 1, 1, -1]] (1/100 : Rat) (1/100000000)
+    (igNext 1000000 tolPivQ tolDiffQ) 30 [1, 0, 1, 0]).converged = true := by decide +kernel
+
+end nash
+
+/-! ## the returned profile consists of probability vectors -/
+
+section convex
+variable {K : Type} [Field K] [LinearOrder K] [IsStrictOrderedRing K]
+
+/-- `Σ` of player `i`'s block `x[indptr[i] : indptr[i+1]]` of a flattened profile -/
+def blockSum (nums : List Nat) (x : List K) (i : Nat) : K :=
+  fsum ((List.range' (indptr nums i) (nums.getD i 0)).map fun k => x.getD k 0)
+
+/-- every coordinate is `≥ 0` and every player's block sums to one -/
+def IsBlockProb (nums : List Nat) (x : List K) : Prop :=
+  (∀ k, 0 ≤ x.getD k 0) ∧ ∀ i, i < nums.length → blockSum nums x i = 1
+
+/-- a probability vector: non-negative entries summing to one -/
+def IsProbVec (rho : List K) : Prop := (∀ r ∈ rho, 0 ≤ r) ∧ fsum rho = 1
+
+/-- **`rho.dot(Y[:m])` is a convex combination.** If `rho` is a probability vector with one weight
+    per stored image, and every stored image is a profile of probability vectors, so is the next
+    point. (`n` = length of the rows; the blocks must lie inside the rows.) -/
+theorem dotRows_blocks_prob (nums : List Nat) (rho : List K) (Y : List (List K))
+    (hρ : IsProbVec rho) (hlen : rho.length = Y.length)
+    (hY : ∀ y ∈ Y, IsBlockProb nums y)
+    (hn : ∀ i, i < nums.length → indptr nums i + nums.getD i 0 ≤ (Y.headD []).length) :
+    IsBlockProb nums (dotRows rho Y) := by
+  constructor
+  · intro k
+    rw [dotRows_getD]
+    split_ifs
+    · exact fsum_zipWith_nonneg (fun y => y.getD k 0) rho Y hρ.1 (fun y hy => (hY y hy).1 k)
+    · exact le_refl _
+  · intro i hi
+    unfold blockSum
+    have hmap : ((List.range' (indptr nums i) (nums.getD i 0)).map fun k => (dotRows rho Y).getD k 0)
+        = (List.range' (indptr nums i) (nums.getD i 0)).map fun k =>
+            fsum (List.zipWith (fun r y => r * y.getD k 0) rho Y) := by
+      apply List.map_congr_left
+      intro k hk
+      rw [dotRows_getD, if_pos]
+      have := List.mem_range'_1.mp hk
+      have := hn i hi
+      omega
+    rw [hmap, fsum_zipWith_swap]
+    rw [fsum_zipWith_const (fun y => fsum ((List.range' (indptr nums i) (nums.getD i 0)).map fun k => y.getD k 0))
+      rho Y (le_of_eq hlen) (fun y hy => (hY y hy).2 i hi)]
+    exact hρ.2
+
+/-- **Convex combinations stay in a box** (`compute_fixed_point` on Brouwer maps of boxes): if
+    `rho` is a probability vector with one weight per stored image and every stored image lies in
+    `[lo, hi]^n`, so does `rho.dot(Y[:m])`. -/
+theorem dotRows_box (lo hi : K) (n : Nat) (rho : List K) (Y : List (List K))
+    (hρ : IsProbVec rho) (hlen : rho.length = Y.length) (hn : (Y.headD []).length = n)
+    (hY : ∀ y ∈ Y, ∀ k, k < n → lo ≤ y.getD k 0 ∧ y.getD k 0 ≤ hi) :
+    ∀ k, k < n → lo ≤ (dotRows rho Y).getD k 0 ∧ (dotRows rho Y).getD k 0 ≤ hi := by
+  intro k hk
+  rw [dotRows_getD, if_pos (by rw [hn]; exact hk)]
+  have h1 := fsum_zipWith_nonneg (fun y => 1 * y.getD k 0 + (-lo)) rho Y hρ.1
+    (fun y hy => by have := (hY y hy k hk).1; linarith)
+  have h2 := fsum_zipWith_nonneg (fun y => (-1) * y.getD k 0 + hi) rho Y hρ.1
+    (fun y hy => by have := (hY y hy k hk).2; linarith)
+  rw [fsum_zipWith_affine (fun y => y.getD k 0) 1 (-lo) rho Y (le_of_eq hlen)] at h1
+  rw [fsum_zipWith_affine (fun y => y.getD k 0) (-1) hi rho Y (le_of_eq hlen)] at h2
+  rw [hρ.2] at h1 h2
+  constructor <;> linarith
+
+/-- **compute_fixed_point (imitation game) keeps its iterates in the box** — partial in the same
+    sense as `mt_profile_prob_lh_partial` (hypothesis (h3) on the `rho` of Lemke–Howson): for a map
+    `T` sending `[lo,hi]^n` into itself and a start in the box, the point returned lies in the box. -/
+theorem ig_box_invariant_partial (lo hi : K) (n : Nat) (T : List K → List K) (isFp : List K → Bool)
+    (hT : ∀ x : List K, (x.length = n ∧ ∀ k, k < n → lo ≤ x.getD k 0 ∧ x.getD k 0 ≤ hi) →
+      ((T x).length = n ∧ ∀ k, k < n → lo ≤ (T x).getD k 0 ∧ (T x).getD k 0 ≤ hi))
+    (lh : List (List K) → List (List K) → List K) (maxIter : Nat) (v : List K)
+    (hv : v.length = n ∧ ∀ k, k < n → lo ≤ v.getD k 0 ∧ v.getD k 0 ≤ hi)
+    (h3 : ∀ X Y : List (List K), X.length = Y.length → X ≠ [] →
+      IsProbVec (lh X Y) ∧ (lh X Y).length = Y.length) :
+    (fixedPointIG T isFp (igNextWith lh) maxIter v).x.length = n ∧
+    ∀ k, k < n → lo ≤ (fixedPointIG T isFp (igNextWith lh) maxIter v).x.getD k 0 ∧
+      (fixedPointIG T isFp (igNextWith lh) maxIter v).x.getD k 0 ≤ hi := by
+  apply ig_invariant T isFp (igNextWith lh) maxIter
+    (fun x => x.length = n ∧ ∀ k, k < n → lo ≤ x.getD k 0 ∧ x.getD k 0 ≤ hi) hT
+  · intro X hX hP
+    unfold igNextWith
+    have hh : ((X.map T).headD []).length = n := by
+      cases X with
+      | nil => exact absurd rfl hX
+      | cons a as => simp [(hT a (hP a (by simp))).1]
+    obtain ⟨hp, hl⟩ := h3 X (X.map T) (by simp) hX
+    refine ⟨by unfold dotRows; rw [List.length_map, List.length_range, hh], ?_⟩
+    apply dotRows_box lo hi n _ _ hp hl hh
+    intro y hy
+    obtain ⟨a, ha, rfl⟩ := List.mem_map.mp hy
+    exact (hT a (hP a ha)).2
+  · exact hv
+
+/-- **`_best_response_selection` returns a profile of probability vectors** (pure actions), for
+    every well-shaped game (every player has at least one action, player `i`'s payoff array has
+    `Π nums` entries), every `tol ≥ 0` and *every* argument `x`: the result has `Σ nums` entries,
+    all `≥ 0`, and every player's block sums to one. (Hypothesis (h2) of the partial theorem
+    below, discharged.) -/
+theorem brSelection_block_prob (nums : List Nat) (hpos : ∀ k ∈ nums, 0 < k) (pays : List (List K))
+    (hpays : ∀ i, i < nums.length → (pays.getD i []).length = (rot nums i).prod)
+    (tolBR : K) (ht : 0 ≤ tolBR) (x : List K) :
+    IsBlockProb nums (brSelection nums pays tolBR x) ∧
+    (brSelection nums pays tolBR x).length = nums.sum := by
+  obtain ⟨a, hadef⟩ : ∃ a : Nat → Nat, a = fun i =>
+    bestResponse tolBR (payoffVector nums (pays.getD i []) i (unflatten nums x)) := ⟨_, rfl⟩
+  obtain ⟨ls, hls⟩ : ∃ ls : List (List K),
+    ls = (List.range nums.length).map fun i => pure2mixed (nums.getD i 0) (a i) := ⟨_, rfl⟩
+  have hbr : brSelection nums pays tolBR x = ls.flatten := by rw [hls, hadef]; rfl
+  have hN : ls.length = nums.length := by simp [hls]
+  have hget : ∀ i (hi : i < nums.length), ls[i]'(by rw [hN]; exact hi) = pure2mixed (nums.getD i 0) (a i) := by
+    intro i hi; simp [hls]
+  have ha : ∀ i, i < nums.length → a i < nums.getD i 0 := by
+    intro i hi
+    have hl := payoffVector_length nums hpos (pays.getD i []) i hi (hpays i hi) (unflatten nums x)
+      (by simp [unflatten])
+    have hni : 0 < nums.getD i 0 := by
+      rw [List.getD_eq_getElem?_getD, List.getElem?_eq_getElem hi, Option.getD_some]
+      exact hpos _ (List.getElem_mem hi)
+    have hne : payoffVector nums (pays.getD i []) i (unflatten nums x) ≠ [] := by
+      intro h
+      have : (0 : Nat) = nums.getD i 0 := by rw [← hl, h]; rfl
+      omega
+    obtain ⟨h, _, _⟩ := bestResponse_spec tolBR ht _ hne
+    rw [hadef]
+    show bestResponse tolBR _ < _
+    rw [← hl]; exact h
+  have hlens : ls.map List.length = nums := by
+    apply List.ext_getElem
+    · simp [hls]
+    · intro i h1 h2
+      simp [hls, (pure2mixed_spec (K := K) _ _).1, List.getElem?_eq_getElem h2]
+  rw [hbr]
+  refine ⟨⟨?_, ?_⟩, ?_⟩
+  · intro k
+    rw [List.getD_eq_getElem?_getD]
+    cases hk : ls.flatten[k]? with
+    | none => exact le_refl _
+    | some z =>
+      have hz : z ∈ ls.flatten := List.mem_of_getElem? hk
+      obtain ⟨l, hl, hzl⟩ := List.mem_flatten.mp hz
+      rw [hls] at hl
+      obtain ⟨i, _, rfl⟩ := List.mem_map.mp hl
+      unfold pure2mixed at hzl
+      obtain ⟨t, _, rfl⟩ := List.mem_map.mp hzl
+      simp only [Option.getD_some]
+      split_ifs
+      · exact zero_le_one
+      · exact le_refl _
+  · intro i hi
+    unfold blockSum
+    have hoff : indptr nums i = ((ls.take i).map List.length).sum := by
+      rw [indptr_eq_sum, List.map_take, hlens]
+    have hmap : ((List.range' (indptr nums i) (nums.getD i 0)).map fun k => ls.flatten.getD k 0)
+        = (List.range (nums.getD i 0)).map fun t => if t = a i then (1 : K) else 0 := by
+      rw [List.range'_eq_map_range, List.map_map]
+      apply List.map_congr_left
+      intro t ht'
+      have htn : t < nums.getD i 0 := List.mem_range.mp ht'
+      simp only [Function.comp]
+      rw [hoff, flatten_getD_block ls i (by rw [hN]; exact hi) t
+        (by rw [hget i hi, (pure2mixed_spec _ _).1]; exact htn), hget i hi]
+      exact (pure2mixed_spec _ _).2 t htn
+    rw [hmap, fsum_indicator, if_pos (ha i hi)]
+  · rw [List.length_flatten, hlens]
+
+/-- **mclennan_tourky returns a profile of probability vectors** — partial: two facts about
+    sub-routines enter as hypotheses (both are checked on the real code on every recorded pass by
+    the correspondence run: counters `lh:*` for (h3), spec key `mt_image_pure` for (h2)):
+    (h2) `_best_response_selection` returns a profile of (pure, hence) probability vectors with
+         `n` entries — true as soon as every player's payoff vector has one entry per action;
+    (h3) the `rho` extracted from the Lemke–Howson tableaux of the imitation game is a probability
+         vector with one weight per stored point (a theorem about Lemke–Howson with the code's
+         tolerances, not attempted).
+    Given these, for every game, start in the product of simplices, `ε`, `max_iter`: the point
+    returned (converged or not) is a profile of probability vectors. -/
+theorem mt_profile_prob_partial (nums : List Nat) (pays : List (List K)) (eps tolBR : K) (n : Nat)
+    (lh : List (List K) → List (List K) → List K) (maxIter : Nat) (x0 : List K)
+    (hn : ∀ i, i < nums.length → indptr nums i + nums.getD i 0 ≤ n)
+    (h1 : IsBlockProb nums x0 ∧ x0.length = n)
+    (h2 : ∀ x, IsBlockProb nums (brSelection nums pays tolBR x) ∧ (brSelection nums pays tolBR x).length = n)
+    (h3 : ∀ X Y : List (List K), X.length = Y.length → X ≠ [] →
+      IsProbVec (lh X Y) ∧ (lh X Y).length = Y.length) :
+    IsBlockProb nums (mclennanTourky nums pays eps tolBR (igNextWith lh) maxIter x0).x ∧
+    (mclennanTourky nums pays eps tolBR (igNextWith lh) maxIter x0).x.length = n := by
+  unfold mclennanTourky
+  apply ig_invariant (brSelection nums pays tolBR) (isEpsNash nums pays eps) (igNextWith lh) maxIter
+    (fun x => IsBlockProb nums x ∧ x.length = n)
+  · intro x _; exact h2 x
+  · intro X hX hP
+    unfold igNextWith
+    have hh : ((X.map (brSelection nums pays tolBR)).headD []).length = n := by
+      cases X with
+      | nil => exact absurd rfl hX
+      | cons a as => simp [(h2 a).2]
+    obtain ⟨hp, hl⟩ := h3 X (X.map (brSelection nums pays tolBR)) (by simp) hX
+    refine ⟨dotRows_blocks_prob nums _ _ hp hl ?_ ?_, ?_⟩
+    · intro y hy
+      obtain ⟨a, _, rfl⟩ := List.mem_map.mp hy
+      exact (h2 a).1
+    · intro i hi; rw [hh]; exact hn i hi
+    · unfold dotRows; rw [List.length_map, List.length_range, hh]
+  · exact h1
+
+/-- **mclennan_tourky returns a profile of probability vectors** — partial only in (h3): for
+    every well-shaped game (every player has `≥ 1` action, payoff arrays of `Π nums` entries),
+    `tol ≥ 0` for best responses, every start in the product of simplices, every `ε`, `max_iter`:
+    if the `rho` extracted from the Lemke–Howson tableaux is a probability vector with one weight
+    per stored point at every pass (examined on the real code on every recorded pass, counters
+    `lh:*` of the evidence: it held on every pass of every mclennan_tourky run and every short
+    compute_fixed_point run, and is known to FAIL on long runs whose stored points accumulate within
+    ~1e-6 of each other — there Lemke–Howson returns weights like (−4.85, 5.85); a theorem about
+    Lemke–Howson with the code's tolerances is not attempted), then
+    the point returned — converged or not — is a profile of probability vectors. -/
+theorem mt_profile_prob_lh_partial (nums : List Nat) (hpos : ∀ k ∈ nums, 0 < k) (pays : List (List K))
+    (hpays : ∀ i, i < nums.length → (pays.getD i []).length = (rot nums i).prod)
+    (eps tolBR : K) (ht : 0 ≤ tolBR)
+    (lh : List (List K) → List (List K) → List K) (maxIter : Nat) (x0 : List K)
+    (h1 : IsBlockProb nums x0 ∧ x0.length = nums.sum)
+    (h3 : ∀ X Y : List (List K), X.length = Y.length → X ≠ [] →
+      IsProbVec (lh X Y) ∧ (lh X Y).length = Y.length) :
+    IsBlockProb nums (mclennanTourky nums pays eps tolBR (igNextWith lh) maxIter x0).x ∧
+    (mclennanTourky nums pays eps tolBR (igNextWith lh) maxIter x0).x.length = nums.sum :=
+  mt_profile_prob_partial nums pays eps tolBR nums.sum lh maxIter x0
+    (fun i hi => indptr_block_le nums i hi) h1
+    (fun x => brSelection_block_prob nums hpos pays hpays tolBR ht x) h3
+
+omit [LinearOrder K] [IsStrictOrderedRing K] in
+/-- `_get_action_profile`: player `i`'s action in the un-flattened profile is his block -/
+theorem unflatten_block (nums : List Nat) (x : List K) (hx : x.length = nums.sum) (i : Nat)
+    (hi : i < nums.length) :
+    (unflatten nums x).getD i [] =
+      (List.range' (indptr nums i) (nums.getD i 0)).map fun k => x.getD k 0 := by
+  have hle := indptr_block_le nums i hi
+  have hgd : nums[i]?.getD 0 = nums.getD i 0 := by rw [List.getD_eq_getElem?_getD]
+  unfold unflatten
+  rw [List.getD_eq_getElem?_getD, List.getElem?_map, List.getElem?_eq_getElem (by simpa using hi)]
+  simp only [List.getElem_range, Option.map_some, Option.getD_some]
+  apply List.ext_getElem
+  · simp; omega
+  · intro t h1 h2
+    have ht : t < nums.getD i 0 := by simp at h2; exact h2
+    simp only [List.getElem_take, List.getElem_drop, List.getElem_map, List.getElem_range']
+    have hlt : indptr nums i + 1 * t < x.length := by omega
+    have e : x.getD (indptr nums i + 1 * t) 0 = x[indptr nums i + 1 * t] := by
+      rw [List.getD_eq_getElem?_getD, List.getElem?_eq_getElem hlt]; rfl
+    rw [e]
+    congr 1; omega
+
+omit [IsStrictOrderedRing K] in
+/-- **the profile returned consists of probability vectors**: if the flattened point is
+    block-wise a probability vector (conclusion of `mt_profile_prob_lh_partial`), every action of
+    the tuple `NE = _get_action_profile(x_star, indptr)` has non-negative entries summing to one -/
+theorem unflatten_prob (nums : List Nat) (x : List K) (hx : x.length = nums.sum)
+    (h : IsBlockProb nums x) (i : Nat) (hi : i < nums.length) :
+    IsProbVec ((unflatten nums x).getD i []) ∧ ((unflatten nums x).getD i []).length = nums.getD i 0 := by
+  rw [unflatten_block nums x hx i hi]
+  refine ⟨⟨?_, h.2 i hi⟩, by simp⟩
+  intro r hr
+  obtain ⟨k, _, rfl⟩ := List.mem_map.mp hr
+  exact h.1 k
+
+/-- non-vacuity of the shape hypotheses of `brSelection_block_prob` / `mt_profile_prob_lh_partial`
+    (a 2×3×2 game with arbitrary payoffs): they are decidable facts about `nums` and the lengths -/
+example : (∀ k ∈ [2, 3, 2], 0 < k) ∧
+    (∀ i, i < [2, 3, 2].length →
+      (([List.replicate 12 (1 : Rat), List.replicate 12 2, List.replicate 12 3] : List (List Rat)).getD i []).length
+        = (rot [2, 3, 2] i).prod) := by
+  refine ⟨by decide, ?_⟩
+  intro i hi
+  have : i = 0 ∨ i = 1 ∨ i = 2 := by simp at hi; omega
+  rcases this with rfl | rfl | rfl <;> decide
+
+/-- non-vacuity of `dotRows_blocks_prob`: 2×2 game, two stored pure profiles, `rho = (1/3, 2/3)` -/
+example : IsProbVec ([1/3, 2/3] : List Rat) ∧
+    (∀ y ∈ ([[1, 0, 0, 1], [0, 1, 0, 1]] : List (List Rat)), IsBlockProb [2, 2] y) ∧
+    dotRows ([1/3, 2/3] : List Rat) [[1, 0, 0, 1], [0, 1, 0, 1]] = [1/3, 2/3, 0, 1] := by
+  refine ⟨⟨by decide +kernel, by decide +kernel⟩, ?_, by decide +kernel⟩
+  intro y hy
+  have hk : ∀ (z : List Rat), (∀ k, k < 4 → 0 ≤ z.getD k 0) → z.length = 4 → ∀ k, 0 ≤ z.getD k 0 := by
+    intro z h hl k
+    by_cases hk : k < 4
+    · exact h k hk
+    · rw [List.getD_eq_getElem?_getD, List.getElem?_eq_none (by omega)]; exact le_refl _
+  simp only [List.mem_cons, List.not_mem_nil, or_false] at hy
+  rcases hy with rfl | rfl
+  · refine ⟨hk _ (by decide +kernel) rfl, ?_⟩
+    intro i hi
+    have : i = 0 ∨ i = 1 := by simp at hi; omega
+    rcases this with rfl | rfl <;> decide +kernel
+  · refine ⟨hk _ (by decide +kernel) rfl, ?_⟩
+    intro i hi
+    have : i = 0 ∨ i = 1 := by simp at hi; omega
+    rcases this with rfl | rfl <;> decide +kernel
+
+end convex
 
 end QE.C15
